@@ -110,6 +110,18 @@ def check(rep, tier):
     recs = sr.catalogue(rng, tier, dims=("spatial_1D", "spatial_2D"), confs=None, n1=3 if tier == "quick" else 9, n2=0)
     recs += sr.catalogue(rng, tier, dims=("spatial_1D",), confs=["VISF"], n1=1, late_vacuum=True)
     recs += sr.catalogue(rng, tier, dims=("spatial_1D",), confs=["VISF", "shelf"], n1=1 if tier == "quick" else 2, repoint=True)
+    # always: a 1D run with another solvent melting point and a concentrated solution (T_eq = 3.82 C, 20 % solute)
+    try:
+        progH = dict(start=15, end=-50, rate=2.0 / 60, holds=[], t_tot=3600.0, dt=1.0)
+        exH = {"solution": {"T_eq": 3.82, "solid_fraction": 0.2, "k_f": 2.05, "M_s": 0.18}}
+        SH = sr.make(dim="spatial_1D", conf="shelf", height=0.05, diameter=0.05, K=200, prog=progH, extra=exH)
+        dtH, _ = sr.step_info(SH); progH["t_tot"] = float(int(dtH * 9800))
+        SH = sr.make(dim="spatial_1D", conf="shelf", height=0.05, diameter=0.05, K=200, prog=progH, extra=exH)
+        recH = dict(label="spatial_1D/shelf h=0.05 K=200 T_eq=3.82 C, 20 % solute", dim="spatial_1D", conf="shelf", S=SH, dt=dtH, prog=progH, error=None)
+        sr.run(SH)
+    except Exception as e:
+        recH["error"] = e
+    recs.append(recH)
     # 2D: shelf and jacket, default and non-default aspect ratios
     for conf, h, d in ([("jacket", 0.06, 0.06), ("jacket", 0.05, 0.12), ("VISF", 0.06, 0.12)] if tier == "quick" else
                        [("jacket", 0.06, 0.06), ("jacket", 0.05, 0.12), ("jacket", 0.08, 0.05), ("shelf", 0.06, 0.12), ("shelf", 0.05, 0.05), ("VISF", 0.06, 0.12), ("VISF", 0.06, 0.03)]):
